@@ -339,11 +339,12 @@ func (c *Ctx) bocHeaderAgreement() {
 	}
 	// reader: calls readNBytesUIntFromArray(width, boc) in order with width role sizeBytes/offsetBytes
 	var sizeV, offV ssa.Value
-	allInstrs(r, func(_ *ssa.BasicBlock, in ssa.Instruction) {
-		if ph, ok := in.(*ssa.Phi); ok && ph.Comment == "sizeBytes" {
-			sizeV = ph
+	// the size width: the width argument of the first fixed-width read (the cell count)
+	for _, cl := range callsTo(r, bocPath+".readNBytesUIntFromArray") {
+		if sizeV == nil {
+			sizeV = stripConv(cl.Call.Args[0])
 		}
-	})
+	}
 	// offsetBytes := int(boc[0]) right after the size check: the Convert of a byte load that is not sizeBytes
 	var rseq []string
 	first := true
@@ -377,57 +378,138 @@ func (c *Ctx) bocHeaderAgreement() {
 	rgot := strings.Join(rseq, " ")
 	rwant := "SIZE SIZE SIZE OFF SIZE* OFF*"
 	c.check(rgot == rwant, R, "reader consumption sequence", r.Pos(), "cells, roots, absent (size bytes), tot_cells_size (off bytes), roots*, index*", "parseBocHeader reads the counters as ["+rgot+"]; the scheme order is ["+rwant+"] (cells, roots, absent with size bytes; tot_cells_size with off_bytes; root list; index)")
-	// flag bit positions: reader masks 128 (idx), 64 (crc), 32 (cache); writer emits [idx, crc, cache] MSB first
-	masks := map[int64]string{}
-	allInstrs(r, func(_ *ssa.BasicBlock, in ssa.Instruction) {
-		if bo, ok := in.(*ssa.BinOp); ok && bo.Op == token.AND {
-			if k, ok := constInt(bo.Y); ok && (k == 128 || k == 64 || k == 32) {
-				// which variable does it define? follow to the phi comment
-				for _, ref := range realRefs(bo) {
-					if gt, ok := ref.(*ssa.BinOp); ok {
-						for _, r2 := range realRefs(gt) {
-							if ph, ok := r2.(*ssa.Phi); ok {
-								masks[k] = ph.Comment
-							}
-						}
+	// flag bit positions, by ROLE (not by what the variables are called): on the reader side the bool tested
+	// with mask 128 guards the reading of the index, the one with mask 64 the CRC comparison, the one with 32 the
+	// halving of index entries; on the writer side the three bools are emitted most significant first and the
+	// first is the one that guards writing the index, the second the CRC, the third the doubling.
+	fromMask := func(v ssa.Value, k int64) bool {
+		return derivesFrom(v, func(x ssa.Value) bool {
+			bo, ok := x.(*ssa.BinOp)
+			if !ok || bo.Op != token.AND {
+				return false
+			}
+			kk, ok := constInt(bo.Y)
+			return ok && kk == k
+		}, false)
+	}
+	guardMask := func(b *ssa.BasicBlock) int64 {
+		for _, ft := range factsAt(r, b) {
+			if !ft.Truth {
+				continue
+			}
+			for _, k := range []int64{128, 64, 32} {
+				if fromMask(ft.Cond, k) {
+					return k
+				}
+			}
+		}
+		return 0
+	}
+	var mIdx, mCrc, mCache int64
+	allInstrs(r, func(b *ssa.BasicBlock, in ssa.Instruction) {
+		switch x := in.(type) {
+		case *ssa.Call:
+			if bi, ok := x.Call.Value.(*ssa.Builtin); ok && bi.Name() == "append" && inLoop(b) {
+				// the index list: appended in a loop whose element comes from an OFF-width read
+				if derivesFrom(x.Call.Args[1], func(v ssa.Value) bool {
+					c2 := callOf(v)
+					return c2 != nil && callQName(&c2.Call) == bocPath+".readNBytesUIntFromArray" && stripConv(c2.Call.Args[0]) != sizeV
+				}, true) {
+					if k := guardMask(b); k != 0 {
+						mIdx = k
+					}
+				}
+			}
+		case *ssa.BinOp:
+			if x.Op == token.QUO {
+				if k, ok := constInt(x.Y); ok && k == 2 {
+					if g := guardMask(b); g != 0 {
+						mCache = g
 					}
 				}
 			}
 		}
 	})
-	okFlags := masks[128] == "hasIdx" && masks[64] == "hashCrc32" && masks[32] == "hasCacheBits"
-	// writer order of the bool array elements
-	var wflags []string
+	// the CRC comparison: the branch whose condition depends on the computed checksum
+	for _, b := range r.Blocks {
+		if iff := lastIf(b); iff != nil && derivesFrom(iff.Cond, callResult("hash/crc32.Checksum"), true) {
+			if k := guardMask(b); k != 0 {
+				mCrc = k
+			}
+		}
+	}
+	okFlags := mIdx == 128 && mCrc == 64 && mCache == 32
+	// writer: which parameter guards what
+	guardParam := func(b *ssa.BasicBlock) *ssa.Parameter {
+		for _, ft := range factsAt(w, b) {
+			if p, ok := ft.Cond.(*ssa.Parameter); ok && ft.Truth {
+				return p
+			}
+		}
+		return nil
+	}
+	var pIdx, pCrc, pCache *ssa.Parameter
+	allInstrs(w, func(b *ssa.BasicBlock, in ssa.Instruction) {
+		switch x := in.(type) {
+		case *ssa.Call:
+			q := callQName(&x.Call)
+			if q == "hash/crc32.Checksum" {
+				pCrc = guardParam(b)
+			}
+			if q == bocPath+".BitString.WriteUint" && inLoop(b) && role(x.Call.Args[2]) == "OFF*8" {
+				if g := guardParam(b); g != nil {
+					pIdx = g
+				}
+			}
+		case *ssa.BinOp:
+			if x.Op == token.MUL {
+				if k, ok := constInt(x.Y); ok && k == 2 {
+					if g := guardParam(b); g != nil {
+						pCache = g
+					}
+				}
+			}
+		}
+	})
+	var wflags []*ssa.Parameter
 	allInstrs(w, func(_ *ssa.BasicBlock, in ssa.Instruction) {
 		if cl, ok := in.(*ssa.Call); ok && callQName(&cl.Call) == bocPath+".BitString.WriteBitArray" {
 			if sl, ok := cl.Call.Args[1].(*ssa.Slice); ok {
 				if al, ok := sl.X.(*ssa.Alloc); ok {
-					elems := map[int64]string{}
+					elems := map[int64]*ssa.Parameter{}
 					for _, ref := range *al.Referrers() {
 						if ia, ok := ref.(*ssa.IndexAddr); ok {
 							if k, ok := constInt(ia.Index); ok {
 								for _, st := range storesTo(ia) {
 									if p, ok := st.Val.(*ssa.Parameter); ok {
-										elems[k] = p.Name()
+										elems[k] = p
 									}
 								}
 							}
 						}
 					}
-					wflags = []string{elems[0], elems[1], elems[2]}
+					wflags = []*ssa.Parameter{elems[0], elems[1], elems[2]}
 				}
 			}
 		}
 	})
-	okFlags = okFlags && fmt.Sprint(wflags) == "[idx hasCrc32 cacheBits]"
-	c.check(okFlags, R, "flag bits: idx=bit7, crc32c=bit6, cache=bit5 on both sides", r.Pos(), "reader masks 128/64/32 for index/crc/cache; writer emits [idx, crc, cache] most significant first", fmt.Sprintf("flag bit placement differs: reader masks %v, writer emits %v", masks, wflags))
+	okW := len(wflags) == 3 && pIdx != nil && pCrc != nil && pCache != nil && wflags[0] == pIdx && wflags[1] == pCrc && wflags[2] == pCache
+	c.check(okFlags && okW, R, "flag bits: idx=bit7, crc32c=bit6, cache=bit5 on both sides", r.Pos(), "reader: mask 128 guards the index, 64 the CRC, 32 the halving; writer emits [index flag, CRC flag, cache flag] most significant first", fmt.Sprintf("flag bit placement differs: on the reader the index is read under mask %d, the CRC checked under mask %d, entries halved under mask %d (expected 128/64/32); writer emits the flags in the order index/CRC/cache: %v", mIdx, mCrc, mCache, okW))
 	// the index entry is halved exactly under hasCacheBits (reader) and doubled under cacheBits (writer)
 	halve := false
 	allInstrs(r, func(b *ssa.BasicBlock, in ssa.Instruction) {
 		if bo, ok := in.(*ssa.BinOp); ok && bo.Op == token.QUO {
 			if k, ok := constInt(bo.Y); ok && k == 2 {
 				for _, ft := range factsAt(r, b) {
-					if ph, ok := ft.Cond.(*ssa.Phi); ok && ph.Comment == "hasCacheBits" && ft.Truth {
+					// the cache-bits flag: a bool merged from the header variants, one of whose sources is flags&32
+					if ph, ok := ft.Cond.(*ssa.Phi); ok && ft.Truth && derivesFrom(ph, func(v ssa.Value) bool {
+						bo, ok := v.(*ssa.BinOp)
+						if !ok || bo.Op != token.AND {
+							return false
+						}
+						k, ok := constInt(bo.Y)
+						return ok && k == 32
+					}, false) {
 						halve = true
 					}
 				}
